@@ -360,35 +360,97 @@ def r5(ctx):
 
 
 def r6(ctx):
-    f = ctx.facts
-    cl = f.body("store::fs::ranges::RecordsByKeyRange::next_filtered::{closure#0}")
-    ctx.touch(cl)
-    gets = [(bi, t) for bi, t in cl.calls() if t["f"].get("name") == "get" and "ReadOnlyTable" in t["f"].get("full", "")]
-    if len(gets) != 1:
-        raise mir.AnchorMissing("next_filtered: expected one records lookup, found %d" % len(gets))
+    """RecordsByKeyRange::next_filtered evaluated (K6') on short index sequences whose rows are found /
+    stale (record gone) / rejected by the filter / failing: a stale id is skipped and the scan goes on."""
     from . import feval as E
-    rows = {}
-    for label, val in (("missing", E.Ok(E.NONE)), ("found", E.Ok(E.Some(E.Tok("row")))), ("error", E.Err(E.Tok("storage-error")))):
-        def oracle(kind, a, b2, site, val=val):
-            if kind == "call" and a in ("call", "call_mut", "call_once"):
-                return E.Int(1)          # the author filter accepts the id
-            if kind == "call" and a == "get":
-                return val
+    f = ctx.facts
+    NF = "store::fs::ranges::RecordsByKeyRange::next_filtered"
+    nf = f.body(NF)
+    ctx.touch(nf)
+    impls = [p for p in f.bodies if p.endswith("as store::fs::ranges::RangeExt<K, V>>::next_filter_map")]
+    if len(impls) != 1:
+        raise mir.AnchorMissing("expected one impl of RangeExt::next_filter_map, found %d" % len(impls))
+    ctx.touch(f.body(impls[0]))
+    bind = {"store::fs::ranges::RangeExt::next_filter_map": impls[0]}
+
+    def scen(rows, direction="Asc"):
+        st = {"i": 0, "gets": [], "filters": [], "dir": None}
+
+        def digit(sx):
+            d = [c for c in sx if c.isdigit()]
+            return int(d[0]) if d else None
+
+        def oracle(kind, name, payload, site):
+            if kind != "call":
+                return None
+            t, args, it = payload
+            names = [it.tokname(a) for a in args]
+            if name in ("next", "next_back") and names and names[0].startswith("idx"):
+                st["dir"] = name
+                i = st["i"]
+                st["i"] += 1
+                if i >= len(rows):
+                    return E.NONE
+                if rows[i] == "ioerr":
+                    return E.Some(E.Err(E.Tok("index-error")))
+                return E.Some(E.Ok(("tuple", [E.Tok("kg%d" % i), E.Tok("vg%d" % i)])))
+            if name == "value" and names[0].startswith("kg"):
+                i = names[0][2:]
+                return ("tuple", [E.Tok("ns" + i), E.Tok("key" + i), E.Tok("author" + i)])
+            if name == "value" and names[0].startswith("vg"):
+                return E.UNIT
+            if name == "value" and names[0].startswith("row"):
+                return E.Tok("val" + names[0][3:])
+            if name in ("call", "call_mut", "call_once") and names and names[0] == "filter":
+                i = digit(names[1])
+                st["filters"].append(i)
+                return E.Int(0 if (i is not None and rows[i] == "rejected") else 1)
+            if name == "get" and "records" in names[0]:
+                i = digit(names[1])
+                st["gets"].append((i, names[1]))
+                if i is None:
+                    raise E.Unsupported("record lookup under an id not derived from the index row: %s" % names[1])
+                r = rows[i]
+                if r == "stale":
+                    return E.Ok(E.NONE)
+                if r == "geterr":
+                    return E.Err(E.Tok("storage-error"))
+                return E.Ok(E.Some(E.Tok("row%d" % i)))
+            if callee_matches(t, r"store::fs::into_entry$"):
+                return E.Tok("entry(%s)" % ",".join(names))
             return None
-        ncap = len(cl.upvars) or 2
-        env = ("closure", cl.path, [E.Tok("cap%d" % i) for i in range(max(ncap, 4))])
-        heap = {"env": env}
+        heap = {"self": E.struct(f, "store::fs::ranges::RecordsByKeyRange", records_table=E.Tok("records"), by_key_range=E.Tok("idx")),
+                "dir": E.variant(f, "store::SortDirection", direction), "filter": E.Tok("filter")}
         try:
-            ret, h, ev = E.run(f, cl.path, [E.href("env"), ("tuple", [E.Tok("ns"), E.Tok("key"), E.Tok("author")]), E.UNIT], heap, oracle)
-            rows[label] = E.describe(ret, f).split("(")[0] + ("(Err" if E.describe(ret, f).startswith("Some(Err") else "")
+            ret, hp, ev = E.run(f, NF, [E.href("self"), E.href("dir"), E.Tok("filter")], heap, oracle, bind=bind)
+            return E.describe(ret, f), st
         except E.Unsupported as e:
-            rows[label] = "UNSUPPORTED-FORM: %s" % e
-    ok = rows.get("missing") == "None" and rows.get("found") == "Some" and rows.get("error") == "Some(Err"
-    ctx.check(ok, "C05.R6", cl.path, "stale-index-id-skipped",
-              "lookup outcome -> callback result: %s; spec: a by-key id whose record is gone yields None (skip), a found record Some(Ok), a storage error Some(Err)" % rows, cl.sp)
-    fl = [(bi, t) for bi, t in cl.calls() if t["f"].get("name") in ("call", "call_mut")]
-    ctx.check(len(fl) == 1 and cl.dominates(fl[0][0], gets[0][0]), "C05.R6", cl.path, "filter-before-lookup", "the author filter is evaluated on the index id before the record is fetched", cl.sp)
-    ctx.floor("C05.R6", 2)
+            return "UNSUPPORTED-FORM: %s" % e, st
+
+    def ent(i):
+        return "Some(Ok(entry((ns%d,author%d,key%d),val%d)))" % (i, i, i, i)
+    table = [
+        (("found",), "Asc", ent(0)),
+        (("found",), "Desc", ent(0)),
+        (("stale", "found"), "Asc", ent(1)),
+        (("stale", "stale", "found"), "Asc", ent(2)),
+        (("stale",), "Asc", "None"),
+        ((), "Asc", "None"),
+        (("rejected", "found"), "Asc", ent(1)),
+        (("geterr", "found"), "Asc", "Some(Err"),
+        (("ioerr",), "Asc", "Some(Err"),
+    ]
+    for rows, direction, want in table:
+        got, st = scen(list(rows), direction)
+        ok = got == want or (want == "Some(Err" and got.startswith("Some(Err"))
+        # the record is looked up under the id permuted from the index key (namespace, key, author) -> (namespace, author, key)
+        ok = ok and all(nm == "(ns%d,author%d,key%d)" % (i, i, i) for i, nm in st["gets"])
+        ok = ok and st["dir"] == ("next" if direction == "Asc" else "next_back")
+        if "rejected" in rows:
+            ok = ok and all(rows[i] != "rejected" for i, _ in st["gets"])
+        ctx.check(ok, "C05.R6", NF, "index-scan[%s,%s]" % ("+".join(rows) or "empty", direction),
+                  "returns %s (spec %s), record lookups %s, advanced with %s; a by-key id whose record is gone is skipped and the scan continues, a rejected id is not looked up, errors are reported" % (got, want, st["gets"], st["dir"]), nf.sp)
+    ctx.floor("C05.R6", 9)
 
 
 def run(ctx):
